@@ -28,14 +28,14 @@ import (
 
 type discard struct{}
 
-func (discard) Errorf(string, ...interface{})            {}
-func (discard) Infof(string, ...interface{})             {}
-func (discard) Debugf(string, ...interface{})            {}
-func (discard) Error(string)                             {}
-func (discard) Info(string)                              {}
-func (discard) Debug(string)                             {}
+func (discard) Errorf(string, ...interface{})               {}
+func (discard) Infof(string, ...interface{})                {}
+func (discard) Debugf(string, ...interface{})               {}
+func (discard) Error(string)                                {}
+func (discard) Info(string)                                 {}
+func (discard) Debug(string)                                {}
 func (d discard) WithFields(log.Fields) log.LoggerInterface { return d }
-func (d discard) WithError(error) log.LoggerInterface    { return d }
+func (d discard) WithError(error) log.LoggerInterface       { return d }
 
 var logOnce sync.Once
 
@@ -173,15 +173,15 @@ type PeerConfig struct {
 	LocalAS uint32 // default 65000
 	PeerAS  uint32 // default = LocalAS (iBGP)
 	// PeerAddr is the address bio-rd knows the peer by; default 127.0.<n>.<n> unique per server.
-	PeerAddr  *bnet.IP
-	LocalAddr *bnet.IP      // default 127.0.0.1
-	HoldTime  time.Duration // default 90 s; bio-rd offers HoldTime/second in its OPEN
-	NoHold    bool          // offer hold time 0
-	RRClient  bool
-	ClusterID uint32
-	RSClient  bool
-	Role      uint8 // server.PeerConfigRole*; 0 = off
-	RoleStrict bool
+	PeerAddr        *bnet.IP
+	LocalAddr       *bnet.IP      // default 127.0.0.1
+	HoldTime        time.Duration // default 90 s; bio-rd offers HoldTime/second in its OPEN
+	NoHold          bool          // offer hold time 0
+	RRClient        bool
+	ClusterID       uint32
+	RSClient        bool
+	Role            uint8 // server.PeerConfigRole*; 0 = off
+	RoleStrict      bool
 	IPv4            *Family
 	IPv6            *Family
 	AdvertiseIPv4MP bool // bio-rd advertises the multiprotocol capability for IPv4 unicast
